@@ -445,7 +445,8 @@ def trans_post(it, self, tp, S, T, n_ex0, ip):
             ('entry-path-starts-below-lca', z3.And(is_state(L), depth(L) == depth(T) - ip - 1, in_chain(T, L))),
             ('nothing-entered', z3.And(g['g_phase'] != ENTERING, g['g_n_en'] == 0, g['g_n_in'] == 0,
                                        z3.Not(g['g_turned']), g['g_goal'] == T)),
-            ('exits-counted', g['g_n_ex'] - n_ex0 == depth(S) - depth(L))]
+            ('exits-counted', g['g_n_ex'] - n_ex0 == depth(S) - depth(L))] + (
+        [('target-answers-the-super-search', z3.Not(faulty(T)))] if getattr(it.w, 'faulty_super', False) else [])
 
 
 def trans_contract(it, fn, args, kwargs):
@@ -857,19 +858,25 @@ def weak_specs():
         idx = c.to_int(env['index'])
         mx = c.to_int(env['max_index'])
         ps = c.to_ref(env['previous_super'])
+        # the target itself gave no status to the first super search: the cursor stayed on it, the next round sees the
+        # same "parent" twice and raises
+        stuck = z3.And(idx == 1, f == i, faulty(i), i != out) if getattr(it.w, 'faulty_super', False) else z3.BoolVal(False)
         return [('index-range', z3.And(0 <= idx, idx <= mx)),
                 ('cursor-is-ancestor-or-top-again', z3.And(is_state(i), is_state(f), z3.Or(
+                    stuck,
                     z3.And(idx <= depth(i), f == anc(i, depth(i) - idx)),
                     z3.And(idx == depth(i) + 1, f == TOP, out != TOP)))),
-                ('path-recorded', z3.ForAll([_k], z3.Implies(z3.And(0 <= _k, _k <= idx, _k <= depth(i)),
-                                                             z3.Select(items, _k) == anc(i, depth(i) - _k)),
-                                            patterns=[z3.Select(items, _k)])),
+                ('path-recorded', z3.Implies(z3.Not(stuck), z3.ForAll([_k], z3.Implies(
+                    z3.And(0 <= _k, _k <= idx, _k <= depth(i)), z3.Select(items, _k) == anc(i, depth(i) - _k)),
+                    patterns=[z3.Select(items, _k)]))),
+                ('target-first', z3.Select(items, 0) == i),
                 ('tpath-capacity', z3.And(n == mx + 1, n >= 1)),
                 ('top-visited-at-most-once-more', z3.And(idx <= depth(i) + 1)),
                 ('previous-super', z3.If(idx == 0, ps == NONE, ps == f)),
                 ('outermost-not-passed', z3.ForAll([_d], z3.Implies(z3.And(depth(f) < _d, _d <= depth(i)),
                                                                     anc(i, _d) != out), patterns=[anc(i, _d)])),
-                ('bad-exactly-when-the-target-is-not-inside', g['g_bad'] == z3.Not(strictly_encloses(out, i))),
+                ('bad-exactly-when-the-target-is-not-inside',
+                 g['g_bad'] == z3.Or(z3.Not(strictly_encloses(out, i)), stuck)),
                 ('monitor-untouched', z3.And(g['g_cur'] == out, g['g_goal'] == i, g['g_n_ex'] == 0,
                                              g['g_phase'] == ENTERING, is_state(out))),
                 ('state-fun-untouched', state_fun(it, self) == c.pyghost['state_fun0'])]
@@ -880,6 +887,7 @@ def weak_specs():
         return 2 * depth(f) + z3.If(c.to_ref(env['previous_super']) == f, 0, 1)
 
     s2 = LoopSpec(inv2, mods, var2, 'init-path', locals_kind={'r': 'int'})
+    s2.ghost_modifies = ['g_bad']
 
     def inv3(it, env):
         c, g = it.c, it.c.ghost
@@ -920,7 +928,8 @@ def weak_specs():
                 ('settled-at-t', z3.And(is_state(t), t != TOP, g['g_cur'] == t, g['g_goal'] == t)),
                 ('capacity', z3.And(n >= 3, n == c.to_int(env['max_index']) + 1)),
                 ('answer', z3.And(g['g_answer'] == 1, g['g_n_in'] >= 0)),
-                ('no-bad-init-survived', good(g))]
+                ('no-bad-init-survived', good(g))] + (
+            [('settled-state-answers-the-super-search', z3.Not(faulty(t)))] if getattr(it.w, 'faulty_super', False) else [])
 
     def var4(it, env):
         return DMAX - depth(env['t'].e)
@@ -934,12 +943,19 @@ def weak_specs():
         i = z3.Select(items, 0)
         ip = c.to_int(env['ip'])
         f = temp_fun(it, env['self'])
+        fs = getattr(it.w, 'faulty_super', False)
+        # the init target gave no status to the (unchecked) first super search: the cursor stayed on it
+        stuck = z3.And(ip == 0, f == i, faulty(i)) if fs else z3.BoolVal(False)
         return [('state-fun-untouched', state_fun(it, env['self']) == c.pyghost['cur0']),
                 ('target', z3.And(is_state(i), is_state(t), t != TOP, g['g_cur'] == t, g['g_goal'] == i,
                                   z3.Implies(good(g), strictly_encloses(t, i)))),
                 ('ip-range', z3.And(0 <= ip, ip <= c.to_int(env['max_index']))),
-                ('cursor', z3.And(is_state(f), z3.Or(z3.And(ip + 1 <= depth(i), f == anc(i, depth(i) - ip - 1)),
+                ('cursor', z3.And(is_state(f), z3.Or(stuck, z3.And(ip + 1 <= depth(i), f == anc(i, depth(i) - ip - 1)),
                                                      z3.And(ip + 1 > depth(i), f == TOP)), ip <= depth(i) + 1)),
+                ('consulted-states-answered', z3.And(z3.Or(stuck, z3.Not(faulty(i))), z3.Not(faulty(t))) if fs
+                 else z3.BoolVal(True)),
+                ('bad-exactly-when-the-target-is-not-inside-or-silent',
+                 g['g_bad'] == z3.Or(z3.Not(strictly_encloses(t, i)), stuck)),
                 ('entry-path', z3.ForAll([_k], z3.Implies(z3.And(0 <= _k, _k <= ip, _k <= depth(i)),
                                                           z3.Select(items, _k) == anc(i, depth(i) - _k)),
                                          patterns=[z3.Select(items, _k)])),
@@ -955,6 +971,7 @@ def weak_specs():
         extra = z3.If(c.to_ref(prev) == f, 0, 1) if prev is not None else z3.IntVal(1)
         return 2 * depth(f) + extra
     s5 = LoopSpec(inv5, dmods, var5, 'dispatch-init-path', locals_kind={'previous_super': ('ref', 'state')})
+    s5.ghost_modifies = ['g_bad']
 
     def inv6(it, env):
         c, g = it.c, it.c.ghost
@@ -970,7 +987,8 @@ def weak_specs():
                                          patterns=[z3.Select(items, _k)])),
                 ('goal', z3.And(g['g_goal'] == i, z3.Select(items, 0) == i)),
                 ('capacity', z3.And(n >= 3, N < n, n == c.to_int(env['max_index']) + 1)),
-                ('monitor', z3.And(g['g_answer'] == 1, g['g_n_in'] >= 1, good(g)))]
+                ('monitor', z3.And(g['g_answer'] == 1, g['g_n_in'] >= 1, good(g)))] + (
+            [('init-target-answers-the-super-search', z3.Not(faulty(i)))] if getattr(it.w, 'faulty_super', False) else [])
     s6 = LoopSpec(inv6, lambda it, env: [(temp_of(it, env['self']), 'fun')], lambda it, env: it.c.to_int(env['ip']) + 1,
                   'dispatch-init-enter')
     s6.ghost_modifies = ['g_cur', 'g_phase', 'g_n_en', 'g_turn', 'g_turned']
